@@ -457,13 +457,31 @@ Definition escapes (f : fail) : bool := match f with FRaise e => negb (is_oserro
 
 (* The steps are processed in order.  Whatever ends the connection without a decision of the
    handler (peer EOF or reset, idle timeout, executor shutdown) is the end of the list.
-   When handle_data returns True (a rejection, or an OSError from a hook) the handler stops reading
-   the CLIENT; while the client buffer still holds unflushed bytes (e.g. the rejection response)
-   BaseTcpServerHandler only sets must_flush_before_shutdown, and HttpProxyPlugin.read_from_descriptors
-   keeps running: bytes arriving from upstream before the flush completes still go through the
-   handle_upstream_chunk chain and are queued for the client ([draining] = true).  An exception that
-   escapes handle_events ends the processing immediately.
+   A failure under handle_data ends the reading of the client in one of THREE ways, as in the Python:
+   - a rejection (HttpProtocolException caught by handle_data, which returns True): BaseTcpServerHandler.
+     handle_readables sets must_flush_before_shutdown while the client buffer still holds unflushed bytes
+     (e.g. the rejection response); get_events no longer selects the client for reading, but
+     HttpProtocolHandler.handle_events still calls HttpProxyPlugin.read_from_descriptors: bytes arriving
+     from upstream before the flush completes still go through the handle_upstream_chunk chain and are
+     queued for the client ([draining] = true);
+   - an OSError raised by a hook leaves handle_data and BaseTcpServerHandler.handle_readables and is caught
+     by HttpProtocolHandler.handle_readables (`except socket.error: ... return True`): handle_events sets
+     reads_teared = True, NOT must_flush_before_shutdown.  From then on `if not self.reads_teared:` skips
+     handle_readables AND plugin.read_from_descriptors: nothing is read from either socket any more, no hook
+     of the request-handling chains runs, nothing is queued; pending client output is flushed and
+     handle_events returns True.  Every further step is therefore without effect: the history ends here
+     (the FRaise branch under `else` below);
+   - any other exception escapes handle_events: the processing ends immediately.
    Returns the log and the plugin state (None: HttpProxyPlugin never created). *)
+(* the three continuations of a failure under handle_data, as a vocabulary for the statements
+   (PluginChainFacts.run_steps_first_fail / run_steps_client_fail say that run_steps follows it; run_steps itself
+   keeps the older spelling `if escapes f ... else match f ...` so that proofs reducing it by name stay valid) *)
+Inductive read_end := MustFlush | ReadsTeared | EscapesLoop.
+Definition read_end_of (f : fail) : read_end :=
+  match f with
+  | FReject _ => MustFlush
+  | FRaise e => if is_oserror e then ReadsTeared else EscapesLoop
+  end.
 Fixpoint run_steps (cf : config) (ps : list plugin) (st : option pstate) (draining : bool) (steps : list step) (l : log)
     : log * option pstate :=
   match steps with
@@ -476,7 +494,10 @@ Fixpoint run_steps (cf : config) (ps : list plugin) (st : option pstate) (draini
           | (l1, Continue st1) => run_steps cf ps (Some st1) false t l1
           | (l1, Failed st1 f) =>
               if escapes f then (handle_data_end f l1, Some st1)
-              else run_steps cf ps (Some st1) true t (handle_data_end f l1)
+              else match f with
+                   | FRaise _ => (handle_data_end f l1, Some st1)        (* OSError: reads_teared, no step is processed any more *)
+                   | FReject _ => run_steps cf ps (Some st1) true t (handle_data_end f l1)   (* must_flush_before_shutdown *)
+                   end
           end
       | Some st0, SClient raw parses =>
           if draining then run_steps cf ps st draining t l else
@@ -484,7 +505,10 @@ Fixpoint run_steps (cf : config) (ps : list plugin) (st : option pstate) (draini
           | (l1, Continue st1) => run_steps cf ps (Some st1) false t l1
           | (l1, Failed st1 f) =>
               if escapes f then (handle_data_end f l1, Some st1)
-              else run_steps cf ps (Some st1) true t (handle_data_end f l1)
+              else match f with
+                   | FRaise _ => (handle_data_end f l1, Some st1)        (* OSError: reads_teared, no step is processed any more *)
+                   | FReject _ => run_steps cf ps (Some st1) true t (handle_data_end f l1)   (* must_flush_before_shutdown *)
+                   end
           end
       | Some st0, SUpstream raw =>
           if st_upstream st0 then
